@@ -1,4 +1,16 @@
-//! mon_synth — monitors; dispatches on --prop.
+//! mon_synth — synthesizer monitors: C19 (netlist vs RTL), C20 (well-formedness
+//! and reports), C21 (AIG rewriting, feature `aig`); `SELFTEST` runs the gateval
+//! self-test, `PROBE` prints per-case acceptance statistics for tuning.
+
+mod c19;
+mod c20;
+mod c21;
+mod cleangen;
+mod gateval;
+mod known;
+mod runner;
+mod wellformed;
+mod workload;
 
 use vcommon::Args;
 
@@ -6,9 +18,190 @@ fn main() {
     vcommon::pool::install_panic_hook();
     let args = Args::parse();
     match args.prop.as_str() {
+        "C19" => c19::main(args),
+        "C20" => c20::main(args),
+        "C21" => c21::main(args),
+        "SELFTEST" => {
+            let f = gateval::self_test();
+            for x in &f {
+                println!("FAIL {x}");
+            }
+            println!("gateval self-test: {} failures", f.len());
+            std::process::exit(if f.is_empty() { 0 } else { 2 });
+        }
+        "PROBE" => probe(args),
         p => {
             eprintln!("mon_synth: unknown property {p}");
             std::process::exit(2);
         }
+    }
+}
+
+fn probe(args: Args) {
+    use vcommon::pool::{STACK_64M, par_cases};
+    let n = args.budget("cases", 40, 40);
+    let seed = args.seed;
+    if let Some(m) = args.get("mode") {
+        let _ = workload::MODE.set(m.to_string());
+    }
+    let o = runner::Opts {
+        cycles: args.budget("cycles", 40, 40) as usize,
+        thorough: false,
+        do_eval: true,
+        do_wf: true,
+        libs: vec![0],
+        max_ram_cfgs: 2,
+        arm: "default".into(),
+        sabotage: None,
+    };
+    if let Some(path) = args.get("file") {
+        return probe_file(&args, path, o);
+    }
+    let show = args.get("show").map(|s| s.parse::<u64>().unwrap());
+    if let Some(i) = show {
+        let c = workload::gen_case(seed, i);
+        println!("{}", c.design.text);
+    }
+    let lock = std::sync::Mutex::new(());
+    par_cases(
+        n,
+        args.jobs,
+        STACK_64M,
+        move |i| runner::run_case(seed, i, &o),
+        move |i, r| {
+            let _g = lock.lock().unwrap();
+            match r {
+                Err(p) => println!("case {i}: PANIC {} {}", p.location, p.message.chars().take(200).collect::<String>()),
+                Ok(out) => {
+                    println!("case {i} [{}] {}", out.kind, out.status.chars().take(300).collect::<String>());
+                    let bad = out.cfgs.iter().any(|c| matches!(&c.eval, Some(Ok(g)) if g.mismatch.is_some()));
+                    if bad && std::env::var_os("PROBE_VERBOSE").is_some() {
+                        let d = out.design.as_ref().unwrap();
+                        println!("{}", d.text);
+                        if let (Some(st), Some(Some(Ok(g)))) = (&out.stim, out.cfgs.first().map(|c| c.eval.as_ref())) {
+                            let m = g.mismatch.as_ref().unwrap();
+                            println!("stimulus@{}: {}", m.cycle, serde_json::to_string(&runner::stim_json(st, m.cycle)[m.cycle]).unwrap());
+                            let names: Vec<String> = m
+                                .all_outputs
+                                .iter()
+                                .map(|o| {
+                                    let pat = format!("assign {o} = ");
+                                    d.text.lines().find(|l| l.contains(&pat) && l.contains("// observe")).map(|l| l.trim().to_string()).unwrap_or(o.clone())
+                                })
+                                .collect();
+                            println!("differing outputs: {names:?}");
+                        }
+                    }
+                    for c in &out.cfgs {
+                        let ev = match &c.eval {
+                            None => "-".to_string(),
+                            Some(Err(e)) => format!("EVALERR {e}"),
+                            Some(Ok(g)) => format!(
+                                "cmp={} x={} coll={} amb={} {}",
+                                g.bits_compared,
+                                g.bits_gate_x,
+                                g.stats.ram_write_collisions,
+                                g.stats.reset_order_ambiguous_bits,
+                                g.mismatch.as_ref().map(|m| format!("MISMATCH c{} {}[{}] gate {} rtl {}", m.cycle, m.output, m.bit, m.gate, m.rtl)).unwrap_or_default()
+                            ),
+                        };
+                        let wf = match &c.wf {
+                            None => "-".to_string(),
+                            Some((f, st)) => format!(
+                                "wf={} depth={} [{}{}{}] {}",
+                                f.len(),
+                                st.depth,
+                                if st.depth_is_path_stages { "P" } else { "" },
+                                if st.depth_is_endpoint_levels { "E" } else { "" },
+                                if st.depth_is_global_levels { "G" } else { "" },
+                                f.iter().take(3).map(|x| format!("{}: {}", x.class, x.detail)).collect::<Vec<_>>().join(" | ")
+                            ),
+                        };
+                        println!(
+                            "    {}/{} {:.2}s {} cells={} ffs={} rams={} comp={} | {} | {}",
+                            c.lib,
+                            c.ram_cfg,
+                            c.secs,
+                            c.synth_err.clone().unwrap_or_default(),
+                            c.info.cells,
+                            c.info.ffs,
+                            c.info.rams,
+                            c.info.compound,
+                            ev,
+                            wf
+                        );
+                    }
+                }
+            }
+        },
+    );
+}
+
+/// Hand experiments: `--set file=<veryl>` runs one hand-written design (ports of
+/// `module Top` are parsed from the text: i_clk, i_rst, iN inputs, oN outputs).
+fn probe_file(args: &Args, path: &str, mut o: runner::Opts) {
+    use vgen::design::{Design, Port};
+    let text = std::fs::read_to_string(path).expect("file");
+    let top = &text[text.rfind("module Top").expect("module Top")..];
+    let header = &top[..top.find(") {").expect(") {")];
+    let mut inputs = vec![];
+    let mut outputs = vec![];
+    for line in header.lines() {
+        let line = line.trim().trim_end_matches(',');
+        let Some((name, rest)) = line.split_once(':') else { continue };
+        let name = name.trim();
+        let rest = rest.trim();
+        if name == "i_clk" || name == "i_rst" {
+            continue;
+        }
+        let output = rest.starts_with("output");
+        if !(rest.starts_with("input") || output) {
+            continue;
+        }
+        let signed = rest.contains("signed");
+        let width = rest.find('<').map(|p| rest[p + 1..rest.find('>').unwrap()].trim().parse::<usize>().unwrap()).unwrap_or(1);
+        let port = Port { name: name.to_string(), width, signed, output };
+        if output { outputs.push(port) } else { inputs.push(port) }
+    }
+    let d = Design { text: text.clone(), top: "Top".into(), clock: "i_clk".into(), reset: "i_rst".into(), inputs, outputs, features: vec![], has_ff: true };
+    let case = workload::Case { kind: "file".into(), design: d, arrays: if args.get("arrays").is_some() { vec![args.get("arrays").unwrap().parse().unwrap()] } else { vec![] }, ports: (1, 1) };
+    o.libs = vec![0];
+    let dump = args.get("dump").is_some();
+    let seed = args.seed;
+    if dump {
+        let text2 = text.clone();
+        let _ = vcommon::pool::fresh_thread(vcommon::pool::STACK_64M, move || {
+            let md = vcommon::pipeline::default_metadata();
+            let a = vcommon::pipeline::analyze_one(&text2, &md).expect("parse");
+            println!("analyzer errors: {:?}", a.error_codes());
+            let top = veryl_parser::resource_table::insert_str("Top");
+            match veryl_synthesizer::synthesize(&a.ir, top, veryl_metadata::Library::Sky130) {
+                Ok(r) => println!("{}\n{}\n{}", r.gate_ir, r.area, r.timing),
+                Err(e) => println!("synth error: {e}"),
+            }
+        });
+    }
+    let r = vcommon::pool::fresh_thread(vcommon::pool::STACK_64M, move || {
+        let out = runner::run_prepared(seed, 0, case, &o);
+        println!("status: {}", out.status);
+        for c in &out.cfgs {
+            println!("  {}/{} err={:?} cells={} ffs={} rams={}", c.lib, c.ram_cfg, c.synth_err, c.info.cells, c.info.ffs, c.info.rams);
+            if let Some(Ok(g)) = &c.eval {
+                println!("    compared={} x={} mismatch={:?}", g.bits_compared, g.bits_gate_x, g.mismatch);
+                if let (Some(m), Some(st)) = (&g.mismatch, &out.stim) {
+                    println!("    stimulus: {}", serde_json::to_string(&runner::stim_json(st, m.cycle)).unwrap());
+                }
+            } else if let Some(Err(e)) = &c.eval {
+                println!("    eval error {e}");
+            }
+            if let Some((f, _)) = &c.wf {
+                for x in f {
+                    println!("    WF {}: {}", x.class, x.detail);
+                }
+            }
+        }
+    });
+    if let Err(p) = r {
+        println!("PANIC {} {}", p.location, p.message);
     }
 }
